@@ -203,6 +203,11 @@ def layouts(ctx, mod, SM):
                             exp = ("raise", "NoFirstStateError")
                         else:
                             exp = ("ok",)
+                        if n % 3 == 0:
+                            # second use: instantiate the bases first (when they are valid machines themselves)
+                            for bname in ("Base", "L", "R"):
+                                if bname in made:
+                                    outcome(lambda: it.call(made[bname], [], {}))
                         o = outcome(lambda: it.call(D, [], {}))
                         desc = f"{shape}: " + "; ".join(f"{c}({', '.join(f'{k}={v}' for k, v in defs[c].items() if v != 'absent')})" for c in classes)
                         if exp[0] == "raise" and firsts > 1 and defaults > 1:
